@@ -31,7 +31,7 @@ func c21(c *rig.Ctx) {
 	c.Assume("C21: exploration part only — interleavings with concurrent writers; the crash-point part (C03-style crash images of the combined update) is not covered by this stage")
 	c.Assume("C21: dropping repeated identical observer snapshots cannot turn a linearizable history into a non-linearizable one (sound, slightly weaker)")
 	c20Hooks()
-	cnt := c20Drive(c, "c21", c.Pick(240, 6000), []string{"c21"}, 2)
+	cnt := c20Drive(c, "c21", c.Pick(200, 6000), []string{"c21"}, 2)
 	c.Require(cnt["c21.commitws_acked"] > 0, "no CommitWithWorkingSet was acknowledged")
 	c.Require(cnt["c21.snapshots_showing_a_combined_update"] > 0, "observers never saw the result of a combined update")
 	c.Require(cnt["c21.observer_snapshots_distinct"] > cnt["c21.histories"], "observers saw no intermediate states")
